@@ -14,7 +14,9 @@ CLAIM = {
           'rounding itself is exercised, not proved.'),
  'note': ('Trusted: Lean kernel; model<->code correspondence on the cases of the run. Float arithmetic is not modelled '
           '(Rat abstraction + oracle with an explicit rounding bound). RLE(theFunc) with a conversion function is '
-          'exercised by the oracle only. NaN/inf and mixed int/float sequences are not generated.'),
+          'exercised by the oracle only. NaN/inf are not generated. numpy scalars (what the RP66V1 index passes as X axis values) '
+          'are outside the Lean model (mathematical integers): the oracle and the correspondence feed them and expect the '
+          'answers of the equal Python numbers, inside the range where fixed-width arithmetic cannot overflow.'),
  'technique': 'Lean 4 proof (induction over the added list, omega/nlinarith) + model-implementation correspondence',
  'design_ref': 'DESIGN.md section 6 C16',
 }
@@ -26,11 +28,33 @@ RULE = ('integer lists: every list up to a small length over a small alphabet (e
         'counts with every frame number; inputs outside the quantifier (largest_le of unsorted lists, frame counts < 1, '
         'positions not increasing) are compared with the model informationally only. Non-trivial = the encoding has >= 2 runs and at least one run with '
         'repeat >= 1 (RLE) / >= 2 runs or a run with repeat >= 1 and >= 2 frames per record (RLEType01); '
-        'distinct by the input sequence.')
+        'distinct by the input sequence. The same questions with numpy scalars: values as elements of numpy arrays of '
+        'int8..int64, uint8..uint64, float32, float64 (exhaustive small scope per type, random runs), mixed with Python '
+        'numbers and with each other, indices / frame numbers / queries as Python numbers and as numpy scalars '
+        '(equal to the first / last / first-of-run value, one step below and above, between neighbours, float queries on '
+        'integer lists); floats are multiples of 1/8 or 1/1024 (every operation exact, so the answer must be exact) or '
+        'general floats as float64 / float32 array elements (rounding bound of the type); ascending general floats are '
+        'asked for the first value of every stored run, below the first, above the last and midpoints of clearly '
+        'separated neighbours; LIS tables with numpy positions, counts, X values and frame numbers.')
 ASSUMPTIONS = ['the plain Python list of added values (and bisect on it) is the reference for position/iteration/largest_le',
-               'float sequences are finite floats (no NaN/inf) and not mixed with ints',
+               'float sequences are finite floats (no NaN/inf); ints and floats are mixed only where every value and every '
+               'intermediate is exactly representable',
+               'numpy integer scalars: every integer of a case (values, length + 2, positions, frame totals) is at most a quarter of '
+               'the maximum of the narrowest numpy integer type of the case, values of unsigned types are ascending, and uint64 never '
+               'meets a signed numpy integer: inside these limits fixed-width arithmetic neither wraps nor raises OverflowError '
+               'nor promotes to float64, and the unchanged code answers as for the equal Python ints; outside them (numpy wraps '
+               'with a RuntimeWarning, a Python int that does not fit the type raises OverflowError, int64 with uint64 gives float64) '
+               'nothing is claimed',
+               'numpy floats: numpy.float64 is a Python float (isclose branch of RLEItem.add), numpy.float32 is not (== branch, '
+               'arithmetic in float32): answers are compared as numbers (value equality after .item()), the returned scalar type '
+               'is only required to be an integer type when integers were fed and asked with',
                'RLE conversion function (theFunc) is None in the model (production callers never pass one)']
 TRUSTED = ['modelled, not verified: Python int arithmetic, // and % (Int.fdiv / Int.fmod), list append/indexing',
+           'numpy scalar arithmetic is not modelled (the Lean model is about mathematical integers): numpy integers inside the '
+           'no-overflow range are compared with the model through the equal Python ints (stream np_rle) and checked by the oracle; '
+           'numpy floats by the oracle only (exact on dyadic values, rounding bound otherwise). numpy specifics relied on: '
+           'x // 0 on numpy floats gives nan / on numpy integers 0 with a RuntimeWarning instead of ZeroDivisionError, '
+           'Python ints are weak scalars (NEP 50), str() of a numpy scalar is the plain number',
            'float rounding in RLEItem.add/value/values is not modelled: Rat abstraction with isclose as a parameter, compared '
            'item for item with the code on exactly representable floats (multiples of 1/1024 below 2**43, incl. values '
            'near 2**42 where isclose accepts unequal values); general floats are exercised by the oracle with the bound '
@@ -43,6 +67,25 @@ def _impl():
     from TotalDepth.common import Rle
     from TotalDepth.LIS.core import Rle as LisRle
     return Rle, LisRle
+
+
+def _np():
+    import numpy
+    return numpy
+
+
+class _quiet:
+    """numpy scalar arithmetic reports overflow / division by zero as RuntimeWarning and carries on (nan, 0, wrapped
+    value): keep that default behaviour whatever warning filter the process runs with."""
+    def __enter__(self):
+        import warnings
+        self._cm = warnings.catch_warnings()
+        self._cm.__enter__()
+        warnings.simplefilter('ignore')
+        return self
+
+    def __exit__(self, *a):
+        return self._cm.__exit__(*a)
 
 
 def _exc(f, *a):
@@ -182,33 +225,70 @@ def oracle_rle(R, xs, idx=None, qs=None, fn=None):
     return None
 
 
-def oracle_float(R, xs):
-    """floats: count, first exact; every decoded value (by position and by iteration) within rounding of the added one."""
+def oracle_float(R, xs, t='py'):
+    """floats: count, first exact; every decoded value (by position and by iteration) within rounding of the added one;
+    ascending lists: largest_le for queries that rounding cannot move across a stored value (below the first, the first
+    value of every stored run, midpoints of clearly separated neighbours, above the last).
+    t = 'py' (Python floats) | 'float64' | 'float32': the values are fed as elements of a numpy array of that dtype
+    (xs must then be representable in it); expectations are the same Python floats, eps is the one of the dtype."""
     n = len(xs)
     try:
-        rle = R.create_rle(xs)
-        if rle.num_values() != n:
-            return f'num_values() = {rle.num_values()}, added {n}'
-        vals = list(rle.values())
-        if len(vals) != n:
-            return f'values() yields {len(vals)} values, added {n}'
-        if n and rle.first() != xs[0]:
-            return f'first() = {rle.first()!r}, added {xs[0]!r}'
-        m = max((abs(x) for x in xs), default=0.0)
-        for i, x in enumerate(xs):
-            tol_pos = 4 * EPS * m
-            tol_it = (2 * i + 4) * EPS * m
-            for j in (i, i - n):
-                got = rle.value(j)
-                if not abs(got - x) <= tol_pos:
-                    return f'value({j}) = {got!r}, added {x!r} (tolerance {tol_pos!r})'
-            if not abs(vals[i] - x) <= tol_it:
-                return f'values()[{i}] = {vals[i]!r}, added {x!r} (tolerance {tol_it!r})'
-        if n and not abs(rle.last() - xs[-1]) <= 4 * EPS * m:
-            return f'last() = {rle.last()!r}, added {xs[-1]!r}'
-        for i in (n, n + 1, -n - 1):
-            if _exc(rle.value, i) != 'I':
-                return f'value({i}) does not raise IndexError for {n} values'
+        if t == 'py':
+            typed, eps, cv = list(xs), EPS, float
+        else:
+            np = _np()
+            typed, eps, cv = list(np.array(xs, dtype=t)), float(np.finfo(t).eps), getattr(np, t)
+        with _quiet():
+            rle = R.create_rle(typed)
+            if rle.num_values() != n:
+                return f'num_values() = {rle.num_values()}, added {n}'
+            vals = [float(v) for v in rle.values()]
+            if len(vals) != n:
+                return f'values() yields {len(vals)} values, added {n}'
+            if n and float(rle.first()) != xs[0]:
+                return f'first() = {rle.first()!r}, added {xs[0]!r}'
+            m = max((abs(x) for x in xs), default=0.0)
+            tol_pos = 4 * eps * m
+            for i, x in enumerate(xs):
+                tol_it = (2 * i + 4) * eps * m
+                for j in (i, i - n):
+                    got = float(rle.value(j))
+                    if not abs(got - x) <= tol_pos:
+                        return f'value({j}) = {got!r}, added {x!r} (tolerance {tol_pos!r})'
+                if not abs(vals[i] - x) <= tol_it:
+                    return f'values()[{i}] = {vals[i]!r}, added {x!r} (tolerance {tol_it!r})'
+            if n and not abs(float(rle.last()) - xs[-1]) <= tol_pos:
+                return f'last() = {rle.last()!r}, added {xs[-1]!r}'
+            for i in (n, n + 1, -n - 1):
+                if _exc(rle.value, i) != 'I':
+                    return f'value({i}) does not raise IndexError for {n} values'
+            if n and is_sorted(xs):
+                # queries as Python floats and as scalars of the list's own type (numpy scalar when t is a numpy dtype)
+                def ask(q):
+                    out = []
+                    for qq in ((q,) if t == 'py' else (cv(q), float(cv(q)))):
+                        g = _exc(rle.largest_le, qq)
+                        out.append(g if isinstance(g, str) else float(g))
+                    return out
+                if xs[0] - 1.0 < xs[0]:
+                    for g in ask(xs[0] - 1.0):
+                        if g != 'V':
+                            return f'largest_le({xs[0] - 1.0!r}) = {g!r}, every stored value is greater: ValueError expected'
+                for g in ask(xs[-1] + 1.0):
+                    if isinstance(g, str) or not abs(g - xs[-1]) <= tol_pos:
+                        return f'largest_le({xs[-1] + 1.0!r}) = {g!r}, the last stored value is {xs[-1]!r}'
+                for it in rle.rle_items:   # the first value of a stored run is stored exactly: it is its own answer
+                    d = float(it.datum)
+                    for g in ask(d):
+                        if g != d:
+                            return f'largest_le({d!r}) = {g!r}, {d!r} itself is stored (first value of a run with stride {it.stride!r}, repeat {it.repeat})'
+                gap = (1e-6 if eps == EPS else 1e-3) * max(1.0, m)
+                for a, b in zip(xs, xs[1:]):
+                    if b - a > gap:
+                        q = (a + b) / 2
+                        for g in ask(q):
+                            if isinstance(g, str) or not abs(g - a) <= tol_pos:
+                                return f'largest_le({q!r}) = {g!r}, greatest stored value <= query is {a!r} (next {b!r})'
     except Exception as e:
         return f'unexpected {type(e).__name__}: {e}'
     return None
@@ -293,9 +373,15 @@ def oracle_history_rle(R, xs):
     return None
 
 
+_SHRINKS_LEFT = [25]     # a broken implementation fails thousands of cases: minimise the first ones only
+
+
 def shrink(xs, fails):
     """greedy delta-debugging of a failing list (only ever runs after a failure)."""
     xs = list(xs)
+    if _SHRINKS_LEFT[0] <= 0:
+        return xs
+    _SHRINKS_LEFT[0] -= 1
     chunk = max(1, len(xs) // 2)
     budget = 400
     while chunk >= 1 and budget > 0:
@@ -323,6 +409,422 @@ def report_rle(ctx, R, xs, idx, qs, detail):
         ctx.fail({'op': 'rle', 'xs': small}, d2)
     else:
         ctx.fail({'op': 'rle', 'xs': list(xs), 'idx': list(idx), 'qs': list(qs)}, detail)
+
+
+# ------------------------------------------------------------------ numpy scalar types (what the index builders pass)
+#
+# RP66V1 LogicalFile.add_iflr passes frame_array.x_axis.array.mean() (numpy.float64, numpy.float32 for a float32 channel)
+# as the X axis value that IndexXML feeds to Rle.create_rle(); frame numbers / positions are Python ints; LIS
+# FileIndexer passes Python floats. numpy.float64 IS a Python float (isinstance), numpy.float32 and the numpy integers
+# are not; numpy integer scalars are fixed width, and Python ints meeting a numpy integer must fit its type (NEP 50,
+# OverflowError otherwise). The streams below therefore stay where fixed-width arithmetic cannot overflow (see np_bound)
+# and never let uint64 meet a signed numpy integer (numpy promotes that pair to float64): inside that range the unchanged
+# code gives, value for value, the results it gives for the equal Python numbers, and that is what is asserted.
+# A type name is 'py' (the Python number as it is), 'pyf' (float(x)) or a numpy scalar type name.
+
+NP_SIGNED = ('int8', 'int16', 'int32', 'int64')
+NP_UNSIGNED = ('uint8', 'uint16', 'uint32', 'uint64')
+NP_INTS = NP_SIGNED + NP_UNSIGNED
+NP_FLOATS = ('float32', 'float64')
+
+
+def _enc(x):
+    return x.hex() if isinstance(x, float) else int(x)
+
+
+def _dec(v):
+    return float.fromhex(v) if isinstance(v, str) else v
+
+
+def _fits(np, t, x):
+    """x can be given as type t without changing its value."""
+    if t in ('py', 'pyf'):
+        return True
+    if t in NP_FLOATS:
+        return float(getattr(np, t)(x)) == x
+    return x == int(x) and int(np.iinfo(t).min) <= x <= int(np.iinfo(t).max)
+
+
+def _conv(np, t, x):
+    if t == 'py':
+        return x
+    if t == 'pyf':
+        return float(x)
+    if t in NP_FLOATS:
+        return getattr(np, t)(x)
+    return getattr(np, t)(int(x))
+
+
+def _py(v):
+    return v.item() if hasattr(v, 'item') and hasattr(v, 'dtype') else v
+
+
+def _same(got, want):
+    """value equality with the Python number (exact: Python compares int/float exactly); error letters compare as such."""
+    if isinstance(got, str) or isinstance(want, str):
+        return isinstance(got, str) and isinstance(want, str) and got == want
+    g = _py(got)
+    if g is None or want is None:
+        return g is None and want is None
+    if isinstance(g, bool) or not isinstance(g, (int, float)):
+        return False
+    return g == want
+
+
+def np_bound(np, types):
+    """largest magnitude B of any integer of a case (values, list length + 2, frame totals, positions) such that every
+    intermediate of RLEItem (v - datum, stride * (repeat + 1), datum + that, value - datum) stays inside every numpy
+    integer type of the case: 4 * B <= max of the type (values then lie in [-B, B], or [0, B] with unsigned types)."""
+    return min([int(np.iinfo(t).max) // 4 for t in types if t in NP_INTS] or [2**61])
+
+
+def _mixes_u64(types):
+    types = set(types)
+    return 'uint64' in types and bool(types & set(NP_SIGNED))
+
+
+def typed_list(np, xs, ts):
+    if xs and len(set(ts)) == 1 and ts[0] not in ('py', 'pyf'):
+        return list(np.array(xs, dtype=ts[0]))     # elements of a numpy array, as the real callers have them
+    return [_conv(np, t, x) for x, t in zip(xs, ts)]
+
+
+def default_np_idx(np, xs, ts):
+    n = len(xs)
+    comp = sorted({t for t in ts if t in NP_INTS}) or ['int64']
+    out = []
+    for i in range(-n - 2, n + 2):
+        out.append((i, 'py'))
+        out.extend((i, t) for t in comp if _fits(np, t, i))
+    return out
+
+
+def default_np_qs(np, xs, ts):
+    n = len(xs)
+    isf = any(isinstance(x, float) for x in xs)
+    d = 0.125 if isf else 1
+    out = set()
+    for j, (x, t) in enumerate(zip(xs, ts)):
+        cands = [x - d, x, x + d]
+        if j + 1 < n and xs[j + 1] > x:
+            cands.append((x + xs[j + 1]) / 2 if isf else (x + xs[j + 1]) // 2)
+        for q in cands:
+            out.add((q, 'py'))
+            out.add((q, t if _fits(np, t, q) else 'py'))
+    return sorted(out) if out else [(0, 'py')]
+
+
+def oracle_np(R, xs, ts, idx=None, qs=None):
+    """xs: Python ints or exactly representable floats, ts: the type each one is fed as; idx / qs: (number, type) pairs.
+    Every answer must equal, as a number, the answer of the plain Python list xs. None when the property holds."""
+    np = _np()
+    n = len(xs)
+    allint = all(isinstance(x, int) and t not in NP_FLOATS and t != 'pyf' for x, t in zip(xs, ts))
+
+    def int_expected(tq):     # integers in, integer type asked with: an integer comes back (no float contamination)
+        return allint and tq not in NP_FLOATS and tq != 'pyf' and not _mixes_u64(list(ts) + [tq])
+
+    try:
+        with _quiet():
+            typed = typed_list(np, xs, ts)
+            rle = R.create_rle(typed)
+            vals = list(rle.values())
+            if len(vals) != n or not all(_same(g, w) for g, w in zip(vals, xs)):
+                return f'values() gives {[_py(v) for v in vals[:10]]}.. (len {len(vals)}), added {xs[:10]}.. (len {n}) as {sorted(set(ts))}'
+            if allint and not _mixes_u64(ts) and not all(isinstance(_py(v), int) for v in vals):
+                return f'values() of integers {sorted(set(ts))} yields a non-integer type'
+            if not _same(rle.num_values(), n):
+                return f'num_values() = {rle.num_values()}, added {n}'
+            if sum(len(it) for it in rle.rle_items) != n:
+                return 'sum of len(item) differs from the number of values added'
+            first, last = rle.first(), rle.last()
+            if not _same(first, xs[0] if n else None) or not _same(last, xs[-1] if n else None):
+                return f'first/last = {first}/{last}, added first/last = {xs[0] if n else None}/{xs[-1] if n else None}'
+            exp = [it.datum + it.stride * k for it in rle.rle_items for k in range(it.repeat + 1)]
+            if len(exp) != n or not all(_same(g, w) for g, w in zip(exp, xs)):
+                return 'datum + k*stride over the stored runs does not reproduce the list (what IndexXML writes)'
+            for i, ti in (default_np_idx(np, xs, ts) if idx is None else idx):
+                want = xs[i] if -n <= i < n else 'I'
+                got = _exc(rle.value, _conv(np, ti, i))
+                if not _same(got, want) or (not isinstance(got, str) and int_expected(ti) and not isinstance(_py(got), int)):
+                    return f'value({ti}:{i}) = {got!r}, list[{i}] = {want!r} (values as {sorted(set(ts))})'
+            if is_sorted(xs):
+                for q, tq in (default_np_qs(np, xs, ts) if qs is None else qs):
+                    k = bisect.bisect_right(xs, q)
+                    want = xs[k - 1] if k else 'V'
+                    got = _exc(rle.largest_le, _conv(np, tq, q))
+                    if not _same(got, want) or (not isinstance(got, str) and int_expected(tq) and not isinstance(_py(got), int)):
+                        return f'largest_le({tq}:{q!r}) = {got!r}, greatest stored <= {q!r} is {want!r} (values as {sorted(set(ts))})'
+            if n:
+                bad = oracle_history_rle(R, typed)
+                if bad is not None:
+                    return bad + f' (values as {sorted(set(ts))})'
+    except Exception as e:
+        return f'unexpected {type(e).__name__}: {e} (values as {sorted(set(ts))})'
+    return None
+
+
+def gen_bounded(rng, target, lo, hi, ascending):
+    """target integers in [lo, hi] built from runs (zero / positive / negative strides, repeats, singletons, near misses
+    of the running progression); ascending=True: non-strictly ascending."""
+    span = hi - lo
+    xs = []
+    if ascending:
+        cur = rng.choice([lo, lo, lo + rng.randint(0, span // 4), hi - rng.randint(0, min(span, 500))])
+    else:
+        cur = rng.choice([lo, lo + span // 2, rng.randint(lo, hi), hi - rng.randint(0, min(span, 2000))])
+    while len(xs) < target:
+        ln = rng.choice([1, 1, 2, 2, 3, 3, 4, 5, 8, rng.randint(1, 30)])
+        st = rng.choice([0, 0, 0, 1, 1, 2, 3, 7, 48, rng.randint(0, 1000), rng.randint(0, max(1, span // 16))])
+        jump = rng.choice([0, 0, 1, 2, 5, rng.randint(0, 300), rng.randint(0, max(1, span // 16))])
+        if len(xs) > 1 and rng.random() < 0.15:       # near miss: one more step of the last progression, or one off
+            d = xs[-1] - xs[-2]
+            jump, ln, st = d + rng.choice([0, 1, 1] if ascending else [0, 1, -1]), 1, 0
+            if ascending:
+                jump = max(jump, 0)
+        elif not ascending:
+            st = st if rng.random() < 0.55 else -st
+            jump = jump if rng.random() < 0.5 else -jump
+        if ascending:
+            room = hi - cur                             # stay below hi: shorten the jump, then the stride
+            jump = min(jump, room)
+            st = min(st, (room - jump) // ln)
+            cur += jump
+        else:
+            cur += jump
+            end = cur + (ln - 1) * st
+            if not (lo <= cur <= hi and lo <= end <= hi):
+                cur = rng.randint(lo, hi)
+                st = max(min(st, (hi - cur) // ln), -((cur - lo) // ln))
+        xs.extend(cur + k * st for k in range(ln))
+        cur = xs[-1]
+    return xs[:target]
+
+
+def pick_types(np, B, pool, signed_only):
+    """numpy integer types an index / query may be given as with a pool: wide enough for every integer of the case
+    (Python ints meeting it must fit), never uint64 with a signed numpy integer (float64 promotion), unsigned only when
+    the pool itself is unsigned (all values >= 0, strides >= 0) and the number is not negative."""
+    has_u = any(t in NP_UNSIGNED for t in pool)
+    out = ['py']
+    for t in NP_INTS:
+        if int(np.iinfo(t).max) // 4 < B or (t in NP_UNSIGNED and (signed_only or not has_u)) or _mixes_u64(list(pool) + [t]):
+            continue
+        out.append(t)
+    return out
+
+
+def gen_np_int_case(np, rng, homog=None):
+    """(xs, ts, idx, qs) for an integer list fed as numpy integer scalars / mixed with Python ints."""
+    r = rng.random()
+    if homog is not None:
+        pool = [homog]
+    elif r < 0.45:
+        pool = [rng.choice(NP_INTS)]
+    elif r < 0.65:
+        pool = rng.sample(('py',) + NP_SIGNED, rng.randint(2, 3))
+    elif r < 0.8:
+        pool = rng.sample(('py',) + NP_UNSIGNED, rng.randint(2, 3))
+    else:                                    # signed with unsigned: every pair but (signed, uint64) promotes to an integer type
+        pool = rng.sample(('py',) + NP_SIGNED + NP_UNSIGNED[:3], rng.randint(2, 4))
+    has_u = any(t in NP_UNSIGNED for t in pool)
+    B = np_bound(np, pool)
+    hi = rng.choice([min(B, 31), min(B, 1000), min(B, 10**6), B, B])
+    target = min(rng.choice([rng.randint(1, 8), rng.randint(8, 28), rng.randint(28, 120)]), hi - 2)
+    ascending = has_u or rng.random() < 0.4
+    xs = gen_bounded(rng, target, 0 if has_u else -hi, hi, ascending)
+    n = len(xs)
+    ts = [rng.choice(pool) for _ in xs]
+    it_all = pick_types(np, max(hi, n + 2), pool, False)
+    it_neg = pick_types(np, max(hi, n + 2), pool, True)
+    ii = list(range(-n - 2, n + 2)) if n <= 24 else sorted({rng.randint(-n - 2, n + 1) for _ in range(24)} | {0, -1, n - 1, -n, n, -n - 1})
+    idx = [(i, rng.choice(it_neg if i < 0 else it_all)) for i in ii]
+    qs = []
+    if is_sorted(xs):
+        base = default_queries(xs)
+        base += [(a + b) // 2 for a, b in zip(xs, xs[1:]) if b - a > 1]
+        if len(base) > 50:
+            base = rng.sample(base, 46) + [xs[0] - 1, xs[0], xs[-1], xs[-1] + 1]
+        for q in sorted(set(base)):
+            tq = rng.choice(it_neg if q < 0 else it_all)
+            qs.append((q, tq if _fits(np, tq, q) else 'py'))
+            if hi <= 2**20 and rng.random() < 0.3:      # a float query on integers: between the stored values
+                qs.append((q + rng.choice([0.0, 0.5, -0.5, 0.25]), rng.choice(['pyf', 'float64', 'float32'])))
+    return xs, ts, idx, qs
+
+
+def gen_np_float_case(np, rng, homog=None):
+    """exactly representable floats (multiples of 1/8 or 1/1024, every operation of RLEItem exact in the narrowest type
+    of the case) fed as numpy.float64 / numpy.float32 / Python floats, optionally with integers among them."""
+    r = rng.random()
+    if homog is not None:
+        pool = [homog]
+    elif r < 0.35:
+        pool = ['float64']
+    elif r < 0.55:
+        pool = ['float32']
+    elif r < 0.7:
+        pool = ['pyf', 'float64']
+    elif r < 0.85:
+        pool = rng.sample(['pyf', 'float64', 'float32'], 2) + [rng.choice(['pyf', 'float64', 'float32'])]
+    else:                                    # integers and floats together (equal numbers, exact everywhere)
+        pool = ['pyf', 'float64'] + rng.sample(['py', 'int32', 'int64', 'float32', 'int16'], 2)
+    narrow = 'float32' in pool or 'int16' in pool
+    div = 8 if narrow else 1024
+    hi = 2**13 if 'int16' in pool else (2**17 if narrow else 2**40)      # in units of 1/div
+    hi = rng.choice([64, 1000, hi])
+    ascending = rng.random() < 0.6
+    target = rng.choice([rng.randint(1, 8), rng.randint(8, 28), rng.randint(28, 100)])
+    if any(t == 'py' or t in NP_INTS for t in pool) and rng.random() < 0.7:
+        us = [u * div for u in gen_bounded(rng, target, -max(4, hi // div), max(4, hi // div), ascending)]     # whole numbers
+    else:
+        us = gen_bounded(rng, target, -hi, hi, ascending)
+    xs, ts = [], []
+    for u in us:
+        x = u / div
+        t = rng.choice(pool)
+        if t == 'py' or t in NP_INTS:
+            if u % div == 0:
+                x = u // div if t == 'py' else x
+            else:
+                t = 'pyf'
+        xs.append(x); ts.append(t)
+    n = len(xs)
+    # a Python-int stride (two neighbouring Python ints) must fit the numpy type of the index it is multiplied with
+    itypes = ['py', 'int64', 'int32'] + ([] if 'py' in pool else ['int16'])
+    utypes = itypes + ([] if 'py' in pool else ['uint8', 'uint16', 'uint32', 'uint64'])
+    ii = list(range(-n - 2, n + 2)) if n <= 24 else sorted({rng.randint(-n - 2, n + 1) for _ in range(24)} | {0, -1, n - 1, -n, n, -n - 1})
+    idx = []
+    for i in ii:
+        t = rng.choice(itypes if i < 0 else utypes)
+        idx.append((i, t if _fits(np, t, i) else 'py'))
+    qs = []
+    if is_sorted(xs):
+        base = set()
+        for a, b in zip(xs, xs[1:] + [xs[-1]] if xs else []):
+            base |= {a, a - 1 / div, a + 1 / div, a - 0.5 / div, a + 0.5 / div}
+            if b > a:
+                base.add((a + b) / 2)
+        base = sorted(base)
+        if len(base) > 60:
+            base = rng.sample(base, 56) + [xs[0] - 1 / div, xs[0], xs[-1], xs[-1] + 1 / div]
+        qtypes = ['pyf', 'float64'] + (['float32'] if narrow else []) + [t for t in pool if t in NP_INTS or t == 'py']
+        for q in sorted(set(base)):
+            tq = rng.choice(qtypes)
+            if tq == 'py' and q == int(q):
+                q = int(q)
+            qs.append((q, tq if _fits(np, tq, q) else 'pyf'))
+    return xs, ts, idx, qs
+
+
+def report_np(ctx, R, xs, ts, idx, qs, detail):
+    pairs = shrink(list(zip(xs, ts)), lambda c: oracle_np(R, [x for x, _ in c], [t for _, t in c]) is not None)
+    sx, st = [x for x, _ in pairs], [t for _, t in pairs]
+    d2 = oracle_np(R, sx, st)
+    if d2 is not None:
+        ctx.fail({'op': 'np_rle', 'xs': [_enc(x) for x in sx], 'ts': st}, d2)
+    else:
+        ctx.fail({'op': 'np_rle', 'xs': [_enc(x) for x in xs], 'ts': list(ts), 'idx': [[i, t] for i, t in idx],
+                  'qs': [[_enc(q), t] for q, t in qs]}, detail)
+
+
+def gen_floats_asc(rng, target):
+    """non-strictly ascending floats from progressions (exact form, accumulated form, noisy), with repeats."""
+    xs = []
+    cur = rng.choice([0.0, 1.0, 100.0, 1000.25, rng.uniform(-1e4, 1e4), rng.uniform(0, 1e-3)])
+    while len(xs) < target:
+        ln = rng.choice([1, 1, 2, 3, 3, 5, 10, rng.randint(1, 40)])
+        st = rng.choice([0.0, 0.0, 0.5, 0.1, 0.25, 1.0 / 3, 0.1524, 0.5 * 0.3048, 75197.0, rng.uniform(0, 10), rng.uniform(0, 1e-6)])
+        mode = rng.random()
+        base = cur + rng.choice([0.0, 0.0, st, rng.uniform(0, 5)])
+        for k in range(ln):
+            if mode < 0.5:
+                v = base + k * st
+            elif mode < 0.8:
+                v = (xs[-1] + st) if (k and xs) else base
+            else:
+                v = base + k * st + rng.choice([0.0, 1e-9, 1e-3])
+            xs.append(max(v, xs[-1]) if xs else v)
+        cur = xs[-1]
+    return xs[:target]
+
+
+def oracle_t01_np(L, recs, rts, frames):
+    """recs: Python (position, frames, x); rts: (position type, count type, x type) per record; frames: (number, type).
+    Same expectations as oracle_t01 on the Python numbers."""
+    np = _np()
+    try:
+        with _quiet():
+            r = L.RLEType01('FEET')
+            for (p, c, x), (tp, tc, tx) in zip(recs, rts):
+                r.add(_conv(np, tp, p), _conv(np, tc, c), _conv(np, tx, x))
+            total = sum(c for _, c, _ in recs)
+            if not _same(r.totalFrames(), total):
+                return f'totalFrames() = {r.totalFrames()!r}, sum of frame counts = {total}'
+            starts = list(itertools.accumulate([0] + [c for _, c, _ in recs[:-1]])) if recs else []
+            for f, tf in frames:
+                if 0 <= f < total:
+                    j = bisect.bisect_right(starts, f) - 1
+                    want = (recs[j][0], f - starts[j])
+                else:
+                    want = 'I'
+                got = _exc(r.tellLrForFrame, _conv(np, tf, f))
+                if isinstance(got, str) or isinstance(want, str):
+                    same = got == want
+                else:
+                    same = len(got) == 2 and _same(got[0], want[0]) and _same(got[1], want[1])
+                if not same:
+                    return f'tellLrForFrame({tf}:{f}) = {got!r}, expected {want}'
+            back = [v for it in r.rle_items for v in it.values()]
+            if len(back) != len(recs) or not all(_same(a, p) and _same(b, c) and _same(xx, x) for (a, b, xx), (p, c, x) in zip(back, recs)):
+                return 'iterating the runs does not give back the (position, frames, X) triples added'
+    except Exception as e:
+        return f'unexpected {type(e).__name__}: {e}'
+    return None
+
+
+def gen_recs_scaled(rng, target, B):
+    """record triples whose positions, frame total and |X| stay <= B (so that narrow numpy integers can carry them)."""
+    recs, total = [], 0
+    pos, x = rng.randint(0, 3), rng.randint(-3, 3)
+    while len(recs) < target:
+        ln = rng.choice([1, 1, 2, 3, 4, 6])
+        st = rng.choice([1, 1, 2, 3, max(1, B // 50)])
+        nf = rng.choice([1, 1, 2, 3, max(1, B // 40)])
+        xs = rng.choice([0, 1, -1, 2])
+        for k in range(ln):
+            n = nf if rng.random() > 0.1 else rng.randint(1, 3)
+            if pos > B or total + n > B or abs(x) > B or len(recs) >= target:
+                return recs
+            recs.append((pos, n, x)); total += n
+            pos += st; x += xs * n
+        pos += rng.choice([0, 0, 1, 5])
+    return recs
+
+
+def gen_np_t01_case(np, rng):
+    signed = rng.random() < 0.5
+    fam = ('py',) + (NP_SIGNED if signed else NP_UNSIGNED)
+    pool = rng.sample(fam, rng.randint(1, 3))
+    B = np_bound(np, pool)
+    if B >= 10**8:
+        recs = gen_recs(rng, rng.choice([rng.randint(0, 6), rng.randint(6, 40)]), xfloat=rng.random() < 0.3)
+    else:
+        recs = gen_recs_scaled(rng, rng.randint(0, 25), B)
+    total = sum(c for _, c, _ in recs)
+    xfl = any(isinstance(x, float) for _, _, x in recs)
+    xt = ['pyf', 'float64', 'float32'] + ([] if xfl else [t for t in NP_SIGNED if int(np.iinfo(t).max) // 4 >= max([B if B < 10**8 else 10**6] + [abs(x) for _, _, x in recs])])
+    if signed and not xfl:
+        xt.append('py')
+    x1 = rng.choice(xt)
+    xpool = [x1] if rng.random() < 0.6 or x1 == 'py' else [x1, rng.choice([t for t in xt if t != 'py'])]
+    rts = [(rng.choice(pool), rng.choice(pool), rng.choice(xpool)) for _ in recs]
+    fl = list(range(-2, total + 3)) if total <= 120 else sorted({rng.randint(0, total - 1) for _ in range(60)} | {-1, 0, total - 1, total, total + 1})
+    frames = []
+    for f in fl:
+        t = rng.choice(pool)
+        frames.append((f, t if _fits(np, t, f) else 'py'))
+    return recs, rts, frames
 
 
 # ------------------------------------------------------------------ generators
@@ -577,6 +1079,95 @@ def run(ctx):
         bad = oracle_t01(L, recs)
         if bad is not None:
             ctx.fail({'op': 't01', 'recs': [list(r) for r in recs]}, bad)
+    run_numpy(ctx, R, L)
+
+
+def run_numpy(ctx, R, L):
+    """the same questions with the values, indices, frame numbers and queries given as numpy scalars."""
+    np = _np()
+    rng = ctx.rng
+
+    def one(xs, ts, idx, qs, tag):
+        ctx.count('oracle_cases'); ctx.count('numpy_cases'); ctx.count('numpy_' + tag)
+        bad = oracle_np(R, xs, ts, idx, qs)
+        if bad is not None:
+            report_np(ctx, R, xs, ts, idx or [], qs or [], bad)
+            return False
+        if len(xs) >= 3:
+            with _quiet():
+                items = R.create_rle(typed_list(np, xs, ts)).rle_items
+            if 2 <= len(items) < len(xs):
+                ctx.nontriv(('np', tag, hash((tuple(xs), tuple(ts)))))
+            if is_sorted(xs) and any(it.stride == 0 for it in items):
+                ctx.count('numpy_sorted_lists_with_a_zero_stride_run_queried')
+        return True
+
+    # ---- exhaustive small scope per numpy type (every index and query in the list's own type and as Python numbers)
+    maxlen = ctx.n(4, 5)
+    n_exh = 0
+    for t in NP_INTS + NP_FLOATS:
+        if t in NP_UNSIGNED:
+            lists = [list(c) for n in range(maxlen + 2) for c in itertools.combinations_with_replacement(range(5), n)]
+        else:
+            alpha = [-2, -1, 0, 1, 2] if t in NP_INTS else [-1.0, -0.5, 0.0, 0.5, 1.0]
+            lists = [list(c) for n in range(maxlen + 1) for c in itertools.product(alpha, repeat=n)]
+        for xs in lists:
+            n_exh += 1
+            one(xs, [t] * len(xs), None, None, t)
+    ctx.extra['exhaustive_scope'] += (f'; numpy scalars: for each of int8..int64, float32, float64 all lists of length <= {maxlen} over 5 values, '
+                                      f'for each of uint8..uint64 all ascending lists of length <= {maxlen + 1} over 0..4 ({n_exh} lists), every index '
+                                      f'-(n+2)..n+1 and every query value-1/value/value+1/midpoint, each as a Python number and as a scalar of the type')
+    # ---- random integer lists as numpy integers / mixed with Python ints; also against the model (it sees the equal Python ints)
+    cases = [gen_np_int_case(np, rng) for _ in range(ctx.n(1500, 20000))]
+    lines = []
+    for xs, ts, idx, qs in cases:
+        iq = [q for q, tq in qs if isinstance(q, int)]
+        lines.append(f'rle {_csv(xs)} {_csv([i for i, _ in idx])} {_csv(iq)}')
+    model = ctx.lean(lines)
+    for (xs, ts, idx, qs), m in zip(cases, model):
+        if one(xs, ts, idx, qs, 'int_mixed' if len(set(ts)) > 1 else ts[0] if ts else 'empty'):
+            with _quiet():
+                out = impl_rle(R, typed_list(np, xs, ts), [_conv(np, t, i) for i, t in idx],
+                               [_conv(np, t, q) for q, t in qs if isinstance(q, int)])
+            ctx.corr('np_rle', {'op': 'np_rle', 'xs': xs[:64], 'ts': ts[:64], 'idx': idx[:16], 'qs': [[_enc(q), t] for q, t in qs[:16]]}, out, m)
+    ctx.sample({'op': 'np_rle', 'xs': cases[0][0][:30], 'ts': cases[0][1][:30], 'model_reply': model[0][:300]})
+    # ---- exactly representable floats as numpy.float64 / numpy.float32 / Python floats (and integers among them)
+    for _ in range(ctx.n(1500, 20000)):
+        xs, ts, idx, qs = gen_np_float_case(np, rng)
+        one(xs, ts, idx, qs, 'float_mixed' if len(set(ts)) > 1 else ts[0] if ts else 'empty')
+    # the index of the task: equal neighbours then a step, asked for the repeated value
+    one([100.0, 100.0, 100.0, 100.5], ['float64'] * 4, None, None, 'float64')
+    # ---- general floats: Python floats (with largest_le now), elements of float64 / float32 arrays
+    for k in range(ctx.n(900, 12000)):
+        xs = (gen_floats_asc if k % 3 else gen_floats)(rng, rng.choice([rng.randint(0, 10), rng.randint(10, 80)]))
+        for t in ('py', 'float64', 'float32'):
+            ys = [float(v) for v in np.array(xs, dtype='float32')] if t == 'float32' else xs
+            ctx.count('oracle_cases'); ctx.count('float_cases'); ctx.count('numpy_cases' if t != 'py' else 'float_le_cases')
+            bad = oracle_float(R, ys, t)
+            if bad is not None:
+                small = shrink(ys, lambda c: oracle_float(R, c, t) is not None)
+                ctx.fail({'op': 'float', 'xs': _jfloat(small), 't': t}, oracle_float(R, small, t) or bad)
+            elif len(ys) >= 3 and is_sorted(ys):
+                ctx.nontriv(('float_le', t, hash(tuple(ys))))
+    # ---- LIS frame index with numpy positions / counts / X values / frame numbers
+    for _ in range(ctx.n(1200, 15000)):
+        recs, rts, frames = gen_np_t01_case(np, rng)
+        ctx.count('oracle_cases'); ctx.count('numpy_cases'); ctx.count('numpy_t01_cases')
+        bad = oracle_t01_np(L, recs, rts, frames)
+        if bad is not None:
+            def fails(c):
+                rr, tt = [r for r, _ in c], [t for _, t in c]
+                tot = sum(n for _, n, _ in rr)
+                return oracle_t01_np(L, rr, tt, [(f, t if _fits(np, t, f) else 'py') for f in range(-2, tot + 3) for t in {'py'} | {a[1] for a in tt}]) is not None
+            small = shrink(list(zip(recs, rts)), fails)
+            if fails(small):
+                ctx.fail({'op': 'np_t01', 'recs': [[p, c, _enc(x)] for (p, c, x), _ in small], 'rts': [list(t) for _, t in small]},
+                         'with all frames -2..total+2: ' + bad)
+            else:
+                ctx.fail({'op': 'np_t01', 'recs': [[p, c, _enc(x)] for p, c, x in recs], 'rts': [list(t) for t in rts],
+                          'frames': [list(f) for f in frames]}, bad)
+        elif len(recs) >= 2 and any(c >= 2 for _, c, _ in recs):
+            ctx.nontriv(('np_t01', hash((tuple(recs), tuple(rts)))))
 
 
 def search(ctx):
@@ -606,7 +1197,19 @@ def replay(ctx, rec):
     elif op == 'rle_fn':
         bad = oracle_rle(R, case['xs'], fn=lambda v: case['a'] * v + case['b'])
     elif op == 'float':
-        bad = oracle_float(R, [float.fromhex(h) for h in case['xs']])
+        bad = oracle_float(R, [float.fromhex(h) for h in case['xs']], case.get('t', 'py'))
+    elif op == 'np_rle':
+        pairs = lambda key: None if case.get(key) is None else [(_dec(v), t) for v, t in case[key]]
+        bad = oracle_np(R, [_dec(v) for v in case['xs']], case['ts'], pairs('idx'), pairs('qs'))
+    elif op == 'np_t01':
+        np = _np()
+        recs = [(p, c, _dec(x)) for p, c, x in case['recs']]
+        rts = [tuple(t) for t in case['rts']]
+        frames = case.get('frames')
+        if frames is None:
+            tot = sum(c for _, c, _ in recs)
+            frames = [(f, t if _fits(np, t, f) else 'py') for f in range(-2, tot + 3) for t in {'py'} | {a[1] for a in rts}]
+        bad = oracle_t01_np(L, recs, rts, [tuple(f) for f in frames])
     elif op == 't01':
         bad = oracle_t01(L, [tuple(r) for r in case['recs']])
     elif op == 't01_hist':
